@@ -109,9 +109,16 @@ func (p *C07) Gen(seed uint64, i int, tier string) *scen.Scenario {
 		g.keys = append(g.keys, fmt.Sprintf("%c%d", 'a'+byte(r.Intn(6)), k))
 	}
 	format := scen.Pick(r, []string{"json", "color", "logfmt"})
+	if i%10 == 9 {
+		return c07Family(sc, r, g, format)
+	}
 	depth := r.Range(1, 4)
+	if r.Chance(1, 4) {
+		depth = r.Range(3, 6) // more loggers than the deepest chain: some are siblings
+	}
 	var sharedArgs []scen.Arg
 	var sharedOn []int
+	depthOf := map[int]int{1: 1}
 	for d := 1; d <= depth; d++ {
 		var op scen.Op
 		if d == 1 {
@@ -124,7 +131,17 @@ func (p *C07) Gen(seed uint64, i int, tier string) *scen.Scenario {
 			}
 			op.Opts = append(op.Opts, scen.Op{Kind: "level", Lvl: 8})
 		} else {
-			op = scen.Op{Op: "new_child", L: d - 1, R: d, Name: fmt.Sprintf("l%d", d), Named: true}
+			par := d - 1
+			if depth > 4 || r.Chance(1, 6) {
+				// a branch: siblings and cousins share ancestors (their records are each other's history);
+				// no chain gets deeper than 4
+				par = r.Range(1, d-1)
+				for depthOf[par] >= 4 {
+					par = r.Range(1, d-1)
+				}
+			}
+			depthOf[d] = depthOf[par] + 1
+			op = scen.Op{Op: "new_child", L: par, R: d, Name: fmt.Sprintf("l%d", d), Named: true}
 		}
 		op.Opts = append(op.Opts, scen.Op{Kind: "writer", W: d}, scen.Op{Kind: "errwriter", W: d})
 		// own attributes: empty in 1/3 of the loggers; given either as New's free-form
@@ -267,6 +284,58 @@ func (p *C07) Gen(seed uint64, i int, tier string) *scen.Scenario {
 				}
 				op.Ctx = c
 			}
+		}
+		sc.Setup = append(sc.Setup, op)
+	}
+	return sc
+}
+
+// c07Family: a parent whose attribute list has grown by Set calls (so its backing array has room to
+// spare) and 2-3 children with own attributes; with the inherit flag on, the children print in turn,
+// again and again: what one child's record assembled must not show up in its sibling's.
+func c07Family(sc *scen.Scenario, r *scen.Rng, g *c07Gen, format string) *scen.Scenario {
+	root := scen.Op{Op: "new_root", R: 1, Name: "l1", Named: true}
+	switch format {
+	case "json":
+		root.Opts = append(root.Opts, scen.Op{Kind: "json", B: []bool{true}})
+	case "logfmt":
+		root.Opts = append(root.Opts, scen.Op{Kind: "color", B: []bool{false}})
+	}
+	root.Opts = append(root.Opts, scen.Op{Kind: "level", Lvl: 8}, scen.Op{Kind: "writer", W: 1}, scen.Op{Kind: "errwriter", W: 1})
+	sc.Setup = append(sc.Setup, root)
+	for k := r.Range(1, 3); k > 0; k-- {
+		o := scen.Op{Op: "set", L: 1, Kind: scen.Pick(r, []string{"attrs", "args"})}
+		if o.Kind == "args" {
+			o.Args = []scen.Arg{{K: "key", S: g.key()}, {K: "i", I: g.nextVal()}}
+		} else {
+			for a := r.Range(1, 2); a > 0; a-- {
+				o.Args = append(o.Args, g.scalar(g.key()))
+			}
+		}
+		sc.Setup = append(sc.Setup, o)
+	}
+	kids := r.Range(2, 3)
+	for d := 2; d <= 1+kids; d++ {
+		op := scen.Op{Op: "new_child", L: 1, R: d, Name: fmt.Sprintf("l%d", d), Named: true, Opts: []scen.Op{{Kind: "writer", W: d}, {Kind: "errwriter", W: d}}}
+		o := scen.Op{Kind: scen.Pick(r, []string{"attrs", "args"})}
+		if o.Kind == "args" {
+			o.Args = []scen.Arg{{K: "key", S: g.key()}, {K: "i", I: g.nextVal()}}
+		} else {
+			for a := r.Range(1, 2); a > 0; a-- {
+				o.Args = append(o.Args, g.scalar(g.key()))
+			}
+		}
+		op.Opts = append(op.Opts, o)
+		sc.Setup = append(sc.Setup, op)
+	}
+	if r.Chance(3, 4) {
+		sc.Setup = append(sc.Setup, scen.Op{Op: "add_flags", S: []string{"LattrsR"}})
+	}
+	for k := 0; k < r.Range(3, 8); k++ {
+		t := tok(k + 1)
+		op := scen.Op{Op: "log", L: r.Range(2, 1+kids), Entry: scen.Pick(r, []string{"Info", "LogAttrs", "Warn"}), Lvl: 4, Msg: "m" + t, Tok: t, Probe: true}
+		if r.Bool() {
+			op.Args = g.list(r.Range(1, 3), false)
 		}
 		sc.Setup = append(sc.Setup, op)
 	}
